@@ -30,6 +30,8 @@ KINDS = {
     "bool": [True, False, True], "str": ["a", "b", "c"], "str?": ["a", None, "c"], "date": [D0, D1, D2], "datetime": [T0, T1, T2],
     "complex": [1j, 2 + 0j, 3 + 1j], "object": [1, "a", None], "bytes": [b"ab", b"c", b""],
     "acc": None, "acc?": None,          # built fresh for every scenario by FACTORIES (the elements are mutable)
+    "empty": [],                        # zero rows: vectors, live views and tables without a single cell
+    "allnone": [None, None, None],      # nothing but None (the 'rewritten' form then stores a str into it)
 }
 class Acc:
     """a user-defined element with an IN-PLACE += (and + / 0 + x, so that the built-in sum() works): a read-only reduction
@@ -48,7 +50,7 @@ class Acc:
 
 FACTORIES = {"acc": lambda: [Acc(100), Acc(250), Acc(5)], "acc?": lambda: [Acc(100), None, Acc(5)]}
 FORMS = ("vector", "view", "donor", "rewritten", "table", "row")
-SCALARS = [2, 2.5, True, "z", None, 1j, D1, T1, 2 ** 60, b"q", 0, -1]
+SCALARS = [2, 2.5, True, "z", None, 1j, D1, T1, 2 ** 60, b"q", 0, -1, 0.0, 0j, "", False]      # falsy values of every kind included
 HUGE_OPS = ("pow", "lshift", "mul")          # operators whose result size explodes with a huge right operand
 BINOPS = ["add", "sub", "mul", "truediv", "floordiv", "mod", "pow", "eq", "ne", "lt", "le", "gt", "ge", "and_", "or_", "xor", "lshift", "rshift", "matmul"]
 
@@ -95,31 +97,34 @@ class Scenario:
         if form == "vector":
             x = Vector(list(vals), name="x")
         elif form == "view":
-            t = Table([Vector(list(vals), name="x"), Vector([10, 20, 30], name="s")])
+            t = Table([Vector(list(vals), name="x"), Vector([10, 20, 30][:len(vals)], name="s")])
             x = t["x"]
             self.objects["parent"] = t
             self.objects["sibling"] = t["s"]
         elif form == "donor":
             x = Vector(list(vals), name="x")
-            s = Vector([10, 20, 30], name="s")
+            s = Vector([10, 20, 30][:len(vals)], name="s")
             self.objects["built"] = Table([x, s])
             self.objects["other-donor"] = s
         elif form == "rewritten":
             # an earlier None write made the dtype nullable; the None is gone again
             x = Vector(list(vals), name="x")
-            keep = x._underlying[1]
+            keep = x._underlying[1] if len(vals) > 1 else None
             try:
-                x[1] = None
-                x[1] = keep if keep is not None else vals[0]
+                if kind == "allnone":
+                    x[1] = "late"           # a vector that was built from nothing but None and received a value afterwards
+                else:
+                    x[1] = None
+                    x[1] = keep if keep is not None else vals[0]
             except Exception:
                 pass
         elif form == "table":
-            x = Table([Vector(list(vals), name="x"), Vector([10, 20, 30], name="s")])
+            x = Table([Vector(list(vals), name="x"), Vector([10, 20, 30][:len(vals)], name="s")])
             self.objects["col-view"] = x["x"]
         elif form == "row":
             t = Table([Vector(list(vals), name="x"), Vector(list(vals), name="x2"), Vector(list(vals), name="x3")])
             self.objects["parent"] = t
-            x = t[1]
+            x = t[1] if len(vals) > 1 else Vector(list(vals), name="x")
         self.objects["x"] = x
         self.x = x
         self.y = None
@@ -239,6 +244,14 @@ def arg_derivations(kind, form):
         add("t[1]", lambda sc: sc.x[1])
         add("t[-1]", lambda sc: sc.x[-1])
         add("t[1][0:2]", lambda sc: sc.x[1][0:2])
+        add("t['x__0','s']", lambda sc: sc.x["x__0", "s"])                # a generated accessor name inside a name tuple
+        add("t['s__1','x__0']", lambda sc: sc.x["s__1", "x__0"])
+        add("t['x__0',]", lambda sc: sc.x["x__0",])
+        add("t[:,'x']", lambda sc: sc.x[:, "x"])                          # all rows through a 2-D key: still a new object
+        add("t[0:3,'x']", lambda sc: sc.x[0:3, "x"])
+        add("t[0:3,1]", lambda sc: sc.x[0:3, 1])
+        add("t['x',:]", lambda sc: sc.x["x", :])
+        add("t[:,('x','s')]", lambda sc: sc.x[:, ("x", "s")])
         add("t['x']", lambda sc: sc.x["x"], True)
         add("t.x", lambda sc: sc.x.x, True)
         add("t.cols(0)", lambda sc: sc.x.cols(0), True)
